@@ -428,4 +428,386 @@ theorem addExclude_inv (e e' : EFile) (p v : Bytes) (hp : p ≠ []) (hi : Inv e)
         (by rw [← entries_exclude]; exact hi.mtch) (by rw [← entries_exclude]; exact hi.fresh) p1
       rw [entries_exclude]; exact this
 
+/-! ### scalars -/
+
+theorem addModuleStmt_inv (e : EFile) (p : Bytes) (hi : Inv e) : Inv (addModuleStmt e p) := by
+  have ht := (addModuleStmt_abs e p hi.tinv).2
+  have hm0 := hi.mtch
+  rw [entries_module] at hm0
+  unfold addModuleStmt at ht ⊢
+  cases hm : e.f.module with
+  | none =>
+    simp only [hm] at ht ⊢
+    rw [hm] at hm0
+    rcases addLine_spec e.f.syn none e.next (B "module") (autoQuote p) [] hi.tree.shape hi.view2 with ⟨p1, p2, p3⟩
+    refine ⟨hi.tree.of_added hi.tinv.pos p2 p3, ?_, ht⟩
+    have := Match.appendSeg (·.lineId) (fun _ => true) entM (fun _ => rfl) (L := [])
+      (x := ({ mod := { path := p }, lineId := e.next } : Module)) rfl [B "module", autoQuote p] [] rfl hm0
+      (by have := hi.fresh; rw [entries_module, hm] at this; exact this) p1
+    rw [entries_module]; exact this
+  | some m =>
+    simp only [hm] at ht ⊢
+    rw [hm] at hm0
+    refine ⟨hi.tree.updateTokens _ _, ?_, ht⟩
+    have := Match.updOne (en := entM m) (en' := entM { m with mod := { m.mod with path := p } }) hi.tree hm0 rfl
+      (B "module") (autoQuote p) [] (fun t0 s ha => by simp only [entM] at ha ⊢; exact ⟨by rw [ha]; rfl, trivial⟩)
+    rw [entries_module]; exact this
+
+theorem addGoStmt_inv (e e' : EFile) (v : Bytes) (hi : Inv e) (h : addGoStmt e v = .ok e') : Inv e' := by
+  have ht := ((addGoStmt_abs e v hi.tinv).1 e' h).2.2
+  have hm0 := hi.mtch
+  rw [entries_go] at hm0
+  unfold addGoStmt at h
+  split at h
+  · cases h
+  · cases hg : e.f.go with
+    | none =>
+      simp only [hg, Except.ok.injEq] at h
+      subst h
+      rw [hg] at hm0
+      rcases addLine_spec e.f.syn (e.f.module.map (·.lineId)) e.next (B "go") v [] hi.tree.shape hi.view2 with ⟨p1, p2, p3⟩
+      refine ⟨hi.tree.of_added hi.tinv.pos p2 p3, ?_, ht⟩
+      have := Match.appendSeg (·.lineId) (fun _ => true) entGo (fun _ => rfl) (L := [])
+        (x := ({ version := v, lineId := e.next } : Go)) rfl [B "go", v] [] rfl hm0
+        (by have := hi.fresh; rw [entries_go, hg] at this; exact this) p1
+      rw [entries_go]; exact this
+    | some g =>
+      simp only [hg, Except.ok.injEq] at h
+      subst h
+      rw [hg] at hm0
+      refine ⟨hi.tree.updateTokens _ _, ?_, ht⟩
+      have := Match.updOne (en := entGo g) (en' := entGo { g with version := v }) hi.tree hm0 rfl
+        (B "go") v [] (fun t0 s ha => by simp only [entGo] at ha ⊢; exact ⟨by rw [ha]; rfl, trivial⟩)
+      rw [entries_go]; exact this
+
+theorem addToolchainStmt_inv (e e' : EFile) (n : Bytes) (hi : Inv e) (h : addToolchainStmt e n = .ok e') : Inv e' := by
+  have ht := ((addToolchainStmt_abs e n hi.tinv).1 e' h).2.2
+  have hm0 := hi.mtch
+  rw [entries_toolchain] at hm0
+  unfold addToolchainStmt at h
+  split at h
+  · cases h
+  · cases hg : e.f.toolchain with
+    | none =>
+      simp only [hg, Except.ok.injEq] at h
+      subst h
+      rw [hg] at hm0
+      rcases addLine_spec e.f.syn (match e.f.go with | some g => some g.lineId | none => e.f.module.map (·.lineId)) e.next
+        (B "toolchain") n [] hi.tree.shape hi.view2 with ⟨p1, p2, p3⟩
+      refine ⟨hi.tree.of_added hi.tinv.pos p2 p3, ?_, ht⟩
+      have := Match.appendSeg (·.lineId) (fun _ => true) entTc (fun _ => rfl) (L := [])
+        (x := ({ name := n, lineId := e.next } : Toolchain)) rfl [B "toolchain", n] [] rfl hm0
+        (by have := hi.fresh; rw [entries_toolchain, hg] at this; exact this) p1
+      rw [entries_toolchain]; exact this
+    | some g =>
+      simp only [hg, Except.ok.injEq] at h
+      subst h
+      rw [hg] at hm0
+      refine ⟨hi.tree.updateTokens _ _, ?_, ht⟩
+      have := Match.updOne (en := entTc g) (en' := entTc { g with name := n }) hi.tree hm0 rfl
+        (B "toolchain") n [] (fun t0 s ha => by simp only [entTc] at ha ⊢; exact ⟨by rw [ha]; rfl, trivial⟩)
+      rw [entries_toolchain]; exact this
+
+theorem dropGoStmt_inv (e : EFile) (hi : Inv e) : Inv (dropGoStmt e) := by
+  have ht := (dropGoStmt_abs e hi.tinv).2
+  have hm0 := hi.mtch
+  rw [entries_go] at hm0
+  unfold dropGoStmt at ht ⊢
+  cases hg : e.f.go with
+  | none => simp only [hg]; exact hi
+  | some g =>
+    simp only [hg] at ht ⊢
+    rw [hg] at hm0
+    refine ⟨hi.tree.markRemoved _, ?_, ht⟩
+    have := Match.dropOne (en := entGo g) hi.tree hm0
+    rw [entries_go]; exact this
+
+theorem dropToolchainStmt_inv (e : EFile) (hi : Inv e) : Inv (dropToolchainStmt e) := by
+  have ht := (dropToolchainStmt_abs e hi.tinv).2
+  have hm0 := hi.mtch
+  rw [entries_toolchain] at hm0
+  unfold dropToolchainStmt at ht ⊢
+  cases hg : e.f.toolchain with
+  | none => simp only [hg]; exact hi
+  | some g =>
+    simp only [hg] at ht ⊢
+    rw [hg] at hm0
+    refine ⟨hi.tree.markRemoved _, ?_, ht⟩
+    have := Match.dropOne (en := entTc g) hi.tree hm0
+    rw [entries_toolchain]; exact this
+
+/-! ### retract -/
+
+theorem addRetract_inv (e e' : EFile) (vi : VersionInterval) (why : Bytes) (hi : Inv e)
+    (h : addRetract e vi why = .ok e') : Inv e' := by
+  have ht := ((addRetract_abs e vi why hi.tinv).1 e' h).2.2
+  have hok := ((addRetract_abs e vi why hi.tinv).1 e' h).1
+  rw [addRetract_eq] at h
+  unfold addRetractP at h
+  simp only [Bool.and_eq_true] at hok
+  simp only [hok.1, hok.2, Bool.not_true, Bool.false_eq_true, if_false, Except.ok.injEq] at h
+  subst h
+  have hlive := checkCanonicalVersion_ne_nil hok.2
+  -- the two token shapes
+  have key : ∀ (verb t : Bytes) (rest : List Bytes), (entRt { interval := vi, rationale := [], lineId := e.next }).acc (verb :: t :: rest) [] →
+      ∀ rat, Inv ⟨{ e.f with
+        retract := e.f.retract ++ [{ interval := vi, rationale := rat, lineId := e.next }],
+        syn := (addLine e.f.syn none (verb :: t :: rest) e.next).updateLine e.next fun l =>
+          { l with comments := { l.comments with before := l.comments.before ++
+            (if why.isEmpty then [] else (splitOn 10 why).map fun line => { token := B "// " ++ line }) } } }, e.next + 1⟩ →
+      True := fun _ _ _ _ _ _ => trivial
+  clear key
+  have build : ∀ (verb t : Bytes) (rest : List Bytes) (rat : Bytes),
+      (entRt { interval := vi, rationale := rat, lineId := e.next }).acc (verb :: t :: rest) [] →
+      TreeWF ((addLine e.f.syn none (verb :: t :: rest) e.next).updateLine e.next fun l =>
+          { l with comments := { l.comments with before := l.comments.before ++
+            (if why.isEmpty then [] else (splitOn 10 why).map fun line => { token := B "// " ++ line }) } }).stmts (e.next + 1) ∧
+      Match (entries { e.f with
+          retract := e.f.retract ++ [{ interval := vi, rationale := rat, lineId := e.next }],
+          syn := (addLine e.f.syn none (verb :: t :: rest) e.next).updateLine e.next fun l =>
+            { l with comments := { l.comments with before := l.comments.before ++
+              (if why.isEmpty then [] else (splitOn 10 why).map fun line => { token := B "// " ++ line }) } } })
+        (view ((addLine e.f.syn none (verb :: t :: rest) e.next).updateLine e.next fun l =>
+          { l with comments := { l.comments with before := l.comments.before ++
+            (if why.isEmpty then [] else (splitOn 10 why).map fun line => { token := B "// " ++ line }) } }).stmts) := by
+    intro verb t rest rat hacc
+    rcases addLine_spec e.f.syn none e.next verb t rest hi.tree.shape hi.view2 with ⟨p1, p2, p3⟩
+    have hw1 := hi.tree.of_added hi.tinv.pos p2 p3
+    refine ⟨hw1.updateLine e.next _ (fun _ => rfl) (fun _ => rfl), ?_⟩
+    have hv := view_updateLine_suffix (addLine e.f.syn none (verb :: t :: rest) e.next) e.next
+      (fun l => { l with comments := { l.comments with before := l.comments.before ++
+        (if why.isEmpty then [] else (splitOn 10 why).map fun line => { token := B "// " ++ line }) } }) (fun s => s)
+      hw1.nodup (fun _ => rfl) (fun _ => rfl) (fun _ => rfl)
+    rw [hv]
+    have hsame : ((view (addLine e.f.syn none (verb :: t :: rest) e.next).stmts).map fun v =>
+        if v.id == e.next then { v with suffix := v.suffix } else v) = view (addLine e.f.syn none (verb :: t :: rest) e.next).stmts := by
+      calc _ = (view (addLine e.f.syn none (verb :: t :: rest) e.next).stmts).map (fun v => v) := by
+            apply List.map_congr_left; intro v _; split <;> rfl
+        _ = _ := by simp
+    rw [hsame]
+    have := Match.appendSeg (·.lineId) liveRt entRt (fun _ => rfl)
+      (x := ({ interval := vi, rationale := rat, lineId := e.next } : Retract))
+      (by simp [liveRt, hlive]) (verb :: t :: rest) [] hacc
+      (by rw [← entries_retract]; exact hi.mtch) (by rw [← entries_retract]; exact hi.fresh) p1
+    rw [entries_retract]; exact this
+  by_cases hlh : (vi.low == vi.high) = true
+  · simp only [hlh, if_true]
+    rcases build (B "retract") (autoQuote vi.low) [] _ (Or.inl ⟨_, rfl, Or.inr rfl, eq_of_beq hlh⟩) with ⟨h1, h2⟩
+    simp only [hlh, if_true] at ht
+    exact ⟨h1, h2, ht⟩
+  · simp only [hlh, Bool.false_eq_true, if_false]
+    rcases build (B "retract") [91] [autoQuote vi.low, [44], autoQuote vi.high, [93]] _
+      (Or.inr ⟨_, _, rfl, Or.inr rfl, Or.inr rfl⟩) with ⟨h1, h2⟩
+    simp only [hlh, Bool.false_eq_true, if_false] at ht
+    exact ⟨h1, h2, ht⟩
+
+/-! ### Cleanup, SortBlocks, AddTool -/
+
+theorem entsOf_filter_live {α : Type} (live : α → Bool) (mk : α → Ent) (l : List α) :
+    entsOf live mk (l.filter live) = entsOf live mk l := by
+  simp [entsOf, List.filter_filter]
+
+theorem cleanup_inv (e : EFile) (hi : Inv e) : Inv (cleanup e) := by
+  rcases cleanupStmts_spec e.f.syn.stmts hi.tree.shape with ⟨c1, c2, c3⟩
+  refine ⟨hi.tree.of_sublist c2 c3, ?_, (cleanup_abs e hi.tinv).2⟩
+  show Match (entries (cleanup e).f) (view (cleanupStmts e.f.syn.stmts))
+  rw [c1]
+  have : entries (cleanup e).f = entries e.f := by
+    simp only [entries, cleanup]
+    have h1 : entsOf liveG entG (e.f.godebug.filter fun x => !x.key.isEmpty) = entsOf liveG entG e.f.godebug :=
+      entsOf_filter_live liveG entG e.f.godebug
+    have h2 : entsOf liveRq entRq (e.f.require.filter fun x => !x.mod.path.isEmpty) = entsOf liveRq entRq e.f.require :=
+      entsOf_filter_live liveRq entRq e.f.require
+    have h3 : entsOf liveX entX (e.f.exclude.filter fun x => !x.mod.path.isEmpty) = entsOf liveX entX e.f.exclude :=
+      entsOf_filter_live liveX entX e.f.exclude
+    have h4 : entsOf liveRp entRp (e.f.replace.filter fun x => !x.old.path.isEmpty) = entsOf liveRp entRp e.f.replace :=
+      entsOf_filter_live liveRp entRp e.f.replace
+    have h5 : entsOf liveRt entRt (e.f.retract.filter fun r => !r.interval.low.isEmpty || !r.interval.high.isEmpty)
+        = entsOf liveRt entRt e.f.retract := entsOf_filter_live liveRt entRt e.f.retract
+    have h6 : entsOf liveT entT (e.f.tool.filter fun x => !x.path.isEmpty) = entsOf liveT entT e.f.tool :=
+      entsOf_filter_live liveT entT e.f.tool
+    rw [h1, h2, h3, h4, h5, h6]
+  rw [this]; exact hi.mtch
+
+/-- the kill lists of `removeDups` -/
+def kill1 (f : File) : List Nat := killLater (fun x : Exclude => x.mod) (·.lineId) f.exclude []
+def kill2 (f : File) : List Nat := kill1 f ++ killEarlier f.replace
+def kill3 (f : File) : List Nat := kill2 f ++ killLater (fun t : Tool => t.path) (·.lineId) f.tool []
+
+theorem sortBlocks_eq (e : EFile) : ∃ sem : Bool,
+    sortBlocks e = { e with f := { e.f with
+      exclude := e.f.exclude.filter (fun x => !(kill1 e.f).contains x.lineId),
+      replace := e.f.replace.filter (fun x => !(kill2 e.f).contains x.lineId),
+      tool := e.f.tool.filter (fun t => !(kill3 e.f).contains t.lineId),
+      syn := { e.f.syn with stmts := sortStmts sem false (dropKilled (kill3 e.f) e.f.syn.stmts) } } } := by
+  unfold sortBlocks Edit.removeDups
+  exact ⟨_, rfl⟩
+
+theorem kill3_src (f : File) : ∀ i ∈ kill3 f,
+    (∃ z ∈ f.exclude, z.lineId = i) ∨ (∃ z ∈ f.replace, z.lineId = i) ∨ (∃ z ∈ f.tool, z.lineId = i) := by
+  intro i hi
+  simp only [kill3, kill2, kill1, List.mem_append] at hi
+  rcases hi with (h | h) | h
+  · exact Or.inl (killLater_subset _ _ _ _ _ h)
+  · exact Or.inr (Or.inl (killEarlier_subset _ _ h))
+  · exact Or.inr (Or.inr (killLater_subset _ _ _ _ _ h))
+
+theorem sortBlocks_inv (e : EFile) (hi : Inv e) : Inv (sortBlocks e) := by
+  have ht := (sortBlocks_abs e hi.tinv).2
+  rcases sortBlocks_eq e with ⟨sem, heq⟩
+  rw [heq] at ht ⊢
+  rcases dropKilled_spec (kill3 e.f) e.f.syn.stmts hi.tree.shape with ⟨d1, d2, d3⟩
+  rcases sortStmts_spec sem false _ d3 with ⟨s1, s2, s3⟩
+  have hw2 := hi.tree.of_sublist d2 d3
+  refine ⟨hw2.of_perm s2 s3, ?_, ht⟩
+  refine Match.perm ?_ s1
+  rw [d1]
+  -- disjointness of the exclude / replace / tool ids
+  rcases List.nodup_append.1 hi.tinv.nodup with ⟨_, ndRT, disX⟩
+  rcases List.nodup_append.1 ndRT with ⟨_, _, disRT⟩
+  have hm := hi.mtch
+  -- an entry's id is not the nil id
+  have hpos : ∀ en ∈ entries e.f, en.id ≠ 0 := by
+    intro en hen
+    rcases hm.cover en hen with ⟨v, hv, hid, _⟩
+    rw [← hid]; exact hi.tree.pos _ (view_id_mem_treeIds hv)
+  -- ids in the kill list belong to exclude / replace / tool entries
+  have hXk : ∀ x ∈ e.f.exclude, liveX x = true → (kill3 e.f).contains x.lineId = (kill1 e.f).contains x.lineId := by
+    intro x hx hl
+    have h1 : x.lineId ∉ killEarlier e.f.replace :=
+      kill_disjoint hi.tinv.wfR hi.tinv.wfX (fun a ha b hb => (disX b hb a (List.mem_append_left _ ha)).symm)
+        (fun i hi' => killEarlier_subset _ i hi') x hx hl
+    have h2 : x.lineId ∉ killLater (fun t : Tool => t.path) (·.lineId) e.f.tool [] :=
+      kill_disjoint hi.tinv.wfT hi.tinv.wfX (fun a ha b hb => (disX b hb a (List.mem_append_right _ ha)).symm)
+        (fun i hi' => killLater_subset _ _ _ _ i hi') x hx hl
+    simp only [kill3, kill2, List.contains_append]
+    have e1 : (killEarlier e.f.replace).contains x.lineId = false := by simpa using h1
+    have e2 : (killLater (fun t : Tool => t.path) (·.lineId) e.f.tool []).contains x.lineId = false := by simpa using h2
+    rw [e1, e2]; simp
+  have hRk : ∀ r ∈ e.f.replace, liveRp r = true → (kill3 e.f).contains r.lineId = (kill2 e.f).contains r.lineId := by
+    intro r hr hl
+    have h2 : r.lineId ∉ killLater (fun t : Tool => t.path) (·.lineId) e.f.tool [] :=
+      kill_disjoint hi.tinv.wfT hi.tinv.wfR (fun a ha b hb => (disRT b hb a ha).symm)
+        (fun i hi' => killLater_subset _ _ _ _ i hi') r hr hl
+    simp only [kill3, List.contains_append]
+    have e2 : (killLater (fun t : Tool => t.path) (·.lineId) e.f.tool []).contains r.lineId = false := by simpa using h2
+    rw [e2]; simp
+  -- entries outside the three lists are never killed
+  have hother : ∀ en, (en ∈ segA_exclude e.f ∨ en ∈ entsOf liveRt entRt e.f.retract) → (kill3 e.f).contains en.id = false := by
+    intro en hen
+    have henE : en ∈ entries e.f := by
+      rw [entries_exclude]
+      rcases hen with h | h
+      · exact List.mem_append_left _ h
+      · exact List.mem_append_right _ (List.mem_append_right _ (by
+          simp only [segC_exclude, List.mem_append]; exact Or.inr (Or.inl h)))
+    cases hc : (kill3 e.f).contains en.id with
+    | false => rfl
+    | true =>
+      exfalso
+      have hmem : en.id ∈ kill3 e.f := by simpa using hc
+      rcases kill3_src e.f _ hmem with ⟨z, hz, hzid⟩ | ⟨z, hz, hzid⟩ | ⟨z, hz, hzid⟩
+      · have hlz : liveX z = true := by
+          cases hl : liveX z with
+          | true => rfl
+          | false => exact absurd (hzid ▸ (hi.tinv.wfX z hz).2 hl) (hpos en henE)
+        have := seg_disjoint (by rw [← entries_exclude]; exact hm) (en := en) (en' := entX z)
+          (by rcases hen with h | h
+              · exact Or.inl h
+              · exact Or.inr (by simp only [segC_exclude, List.mem_append]; exact Or.inr (Or.inl h)))
+          ((mem_entsOf liveX entX).2 ⟨z, hz, hlz, rfl⟩)
+        exact this hzid.symm
+      · have hlz : liveRp z = true := by
+          cases hl : liveRp z with
+          | true => rfl
+          | false => exact absurd (hzid ▸ (hi.tinv.wfR z hz).2 hl) (hpos en henE)
+        have := seg_disjoint (by rw [← entries_replace]; exact hm) (en := en) (en' := entRp z)
+          (by rcases hen with h | h
+              · exact Or.inl (by simp only [segA_replace, List.mem_append]; exact Or.inl h)
+              · exact Or.inr (by simp only [segC_replace, List.mem_append]; exact Or.inl h))
+          ((mem_entsOf liveRp entRp).2 ⟨z, hz, hlz, rfl⟩)
+        exact this hzid.symm
+      · have hlz : liveT z = true := by
+          cases hl : liveT z with
+          | true => rfl
+          | false => exact absurd (hzid ▸ (hi.tinv.wfT z hz).2 hl) (hpos en henE)
+        have := seg_disjoint (by rw [← entries_tool]; exact hm) (en := en) (en' := entT z)
+          (by rcases hen with h | h
+              · exact Or.inl (by simp only [segA_tool, segA_retract, segA_replace, List.mem_append]; exact Or.inl (Or.inl (Or.inl h)))
+              · exact Or.inl (by simp only [segA_tool, List.mem_append]; exact Or.inr h))
+          ((mem_entsOf liveT entT).2 ⟨z, hz, hlz, rfl⟩)
+        exact this hzid.symm
+  -- the entries after SortBlocks are the entries that were not killed
+  have hent : entries { e.f with
+      exclude := e.f.exclude.filter (fun x => !(kill1 e.f).contains x.lineId),
+      replace := e.f.replace.filter (fun x => !(kill2 e.f).contains x.lineId),
+      tool := e.f.tool.filter (fun t => !(kill3 e.f).contains t.lineId),
+      syn := { e.f.syn with stmts := sortStmts sem false (dropKilled (kill3 e.f) e.f.syn.stmts) } }
+      = (entries e.f).filter (fun en => !(kill3 e.f).contains en.id) := by
+    rw [entries_exclude, entries_exclude]
+    simp only [List.filter_append]
+    have hA : (segA_exclude e.f).filter (fun en => !(kill3 e.f).contains en.id) = segA_exclude e.f := by
+      apply List.filter_eq_self.2
+      intro en hen; rw [hother en (Or.inl hen)]; rfl
+    have hRt : (entsOf liveRt entRt e.f.retract).filter (fun en => !(kill3 e.f).contains en.id) = entsOf liveRt entRt e.f.retract := by
+      apply List.filter_eq_self.2
+      intro en hen; rw [hother en (Or.inr hen)]; rfl
+    have hX : entsOf liveX entX (e.f.exclude.filter (fun x => !(kill1 e.f).contains x.lineId))
+        = (entsOf liveX entX e.f.exclude).filter (fun en => !(kill3 e.f).contains en.id) := by
+      unfold entsOf
+      rw [List.filter_map, List.filter_filter, List.filter_filter]
+      congr 1
+      apply List.filter_congr
+      intro x hx
+      simp only [Function.comp, entX]
+      by_cases hl : liveX x = true
+      · rw [hXk x hx hl, hl]; simp
+      · simp only [Bool.not_eq_true] at hl; simp [hl]
+    have hR : entsOf liveRp entRp (e.f.replace.filter (fun x => !(kill2 e.f).contains x.lineId))
+        = (entsOf liveRp entRp e.f.replace).filter (fun en => !(kill3 e.f).contains en.id) := by
+      unfold entsOf
+      rw [List.filter_map, List.filter_filter, List.filter_filter]
+      congr 1
+      apply List.filter_congr
+      intro x hx
+      simp only [Function.comp, entRp]
+      by_cases hl : liveRp x = true
+      · rw [hRk x hx hl, hl]; simp
+      · simp only [Bool.not_eq_true] at hl; simp [hl]
+    have hT : entsOf liveT entT (e.f.tool.filter (fun t => !(kill3 e.f).contains t.lineId))
+        = (entsOf liveT entT e.f.tool).filter (fun en => !(kill3 e.f).contains en.id) := by
+      unfold entsOf
+      rw [List.filter_map, List.filter_filter, List.filter_filter]
+      congr 1
+      apply List.filter_congr
+      intro x _
+      simp only [Function.comp, entT]
+      exact Bool.and_comm _ _
+    simp only [segC_exclude, List.filter_append, hA, hRt, ← hX, ← hR, ← hT]
+    rfl
+  rw [hent]
+  exact hm.filter (kill3 e.f)
+
+theorem addTool_inv (e : EFile) (p : Bytes) (hp : p ≠ []) (hi : Inv e) : Inv (addTool e p) := by
+  unfold addTool
+  split
+  · exact hi
+  · apply sortBlocks_inv
+    rcases addLine_spec e.f.syn none e.next (B "tool") p [] hi.tree.shape hi.view2 with ⟨p1, p2, p3⟩
+    have hmid : TInv (⟨{ e.f with tool := e.f.tool ++ [{ path := p, lineId := e.next }], syn := addLine e.f.syn none [B "tool", p] e.next }, e.next + 1⟩ : EFile) := by
+      have hti := hi.tinv
+      refine TInv.of_sublist_fresh hti hti.wfX hti.wfR
+        (IdWF_append _ _ hti.wfT (IdWF_single _ _ _ (ne_nil_live hp) (Nat.ne_of_gt hti.pos))) _ (List.Sublist.refl _) ?_ (Nat.lt_succ_self _)
+      simp only [idsOf, liveIds_append]
+      have : liveIds liveT (·.lineId) [({ path := p, lineId := e.next } : Tool)] = [e.next] := by
+        simp [liveIds, liveT, ne_nil_live hp]
+      rw [this, ← List.append_assoc, ← List.append_assoc]
+      exact (List.perm_middle).trans (by simp)
+    refine ⟨hi.tree.of_added hi.tinv.pos p2 p3, ?_, hmid⟩
+    have := Match.appendSeg (·.lineId) liveT entT (fun _ => rfl)
+      (x := ({ path := p, lineId := e.next } : Tool))
+      (ne_nil_live hp) [B "tool", p] [] ⟨p, rfl, Or.inl rfl⟩
+      (by rw [← entries_tool]; exact hi.mtch) (by rw [← entries_tool]; exact hi.fresh) p1
+    rw [entries_tool]; exact this
+
 end ModVerif.Modfile.Edit
